@@ -116,9 +116,10 @@ def hilbert(seed=0, full=False):
     idx = (0, 1, 2, 3, 4, 9, 16, 17, 31, 77, 100, 101, 170, 411, 1762, 4410, 12387, 41872)
     if full:
         cases = [(s, 20, o) for o in c18.ORIENTATIONS for s in idx]
+        cases += [(s, 3, o) for s in range(0, 64, 3) for o in ("uv", "wu", "vw")]
     else:
-        cases = [(s, 20, o) for k, o in enumerate(c18.ORIENTATIONS) for s in idx[k::6]]
-    cases += [(s, 3, o) for s in range(0, 64, 3) for o in ("uv", "wu", "vw")]
+        cases = [(s, 20, o) for k, o in enumerate(c18.ORIENTATIONS) for s in idx[k::6][:1]]
+        cases += [(s, 3, o) for s in range(0, 64, 7) for o in ("uv", "wu", "vw")]
 
     def h(c, hlev, o):
         H = c18.install_merged()
